@@ -23,6 +23,16 @@ def gen(rng, flavor):
     ('F': the producer raises ValueError there; 'C': it raises CancelledError, as an awaited task that its owner cancelled
     does - the model treats both as 'the producer fails')."""
     T = rng.choice([64, 256, 1024, 4096]) if flavor == 'c08' else rng.choice([64, 256]) * 16
+    if flavor == 'c08' and rng.random() < 0.15:
+        # one long uninterrupted burst: plain submissions a bit less than `timeout` apart for many quiet periods
+        # (12..40 of them) - however long a burst lasts, it is one call, `timeout` after its last submission
+        gap = rng.choice([T // 2, T - 16, (3 * T) // 5])
+        n = rng.randint(12, 40)
+        prog = [('s', 1 + i * gap, 'put', [(0, i)]) for i in range(n)]
+        if rng.random() < 0.4:
+            prog.append(('s', 1 + (n - 1) * gap + 3 * T + 16, 'put', [(0, n)]))
+        outcomes = [(rng.choice([0, T // 2]), True) for _ in range(6)]
+        return T, prog, outcomes
     n = rng.randint(1, 8)
     t = 0
     prog = []
